@@ -95,6 +95,8 @@ class SpecMixin(object):
           raise SpecUndefined('tuple index out of range')
         return base.items[i]
       raise SpecError('tuple index must be constant')
+    if isinstance(base, VRef) and base.ty.kind == 'opt' and base.ty.args and base.ty.args[0].kind in ('dict', 'list', 'vtuple'):
+      base = VOldRef(base.t, base.ty.args[0], base.heap) if hasattr(base, 'heap') else VRef(base.t, base.ty.args[0])
     if isinstance(base, VRef):
       k = base.ty.kind
       if k == 'dict':
@@ -451,7 +453,9 @@ class SpecMixin(object):
     if cx.old is None:
       raise SpecError('old() outside a two-state context')
     v = self.sv(n.args[0], cx.old)
-    if isinstance(v, VRef) and not isinstance(v, VOldRef) and v.ty.kind in ('set', 'dict', 'list', 'vtuple'):
+    if isinstance(v, VRef) and not isinstance(v, VOldRef) and (
+        v.ty.kind in ('set', 'dict', 'list', 'vtuple')
+        or (v.ty.kind == 'opt' and v.ty.args and v.ty.args[0].kind in ('set', 'dict', 'list', 'vtuple'))):
       return VOldRef(v.t, v.ty, cx.old.heap)
     return v
 
